@@ -115,7 +115,9 @@ def mir_run(cases, res):
 
 def mir_static(cases, nshards=None):
     """static checks of the Lean MIR model on the dump of every case's MIR (`drv_mir`, mode `static`).
-    Returns id -> dict(status, fns, ok, checked, fail=[labels]) ; status != "ok": the program did not compile / dump."""
+    Returns id -> dict(status, fns, ok, checked, fail=[labels], wf, wffail=[labels], enc, fwdnested); status != "ok": the
+    program did not compile / dump.  ok/fail: `stateOkFn` (C05); wf/wffail: `wfFn` (C03); enc: functions whose control skeleton
+    `RustGen.encode` accepts; fwdnested: functions whose skeleton is `forward` and `nested` (C18)."""
     nshards = nshards or min(NCPU, max(1, len(cases) // 50))
     shards = [cases[i::nshards] for i in range(nshards)]
 
@@ -138,8 +140,11 @@ def mir_static(cases, nshards=None):
             w = f[1].split(" ") if len(f) >= 2 else []
             if len(w) >= 5 and w[0] == "stateok":
                 fail = w[4][len("fail="):]
+                kv = dict(x.split("=", 1) for x in w[5:] if "=" in x)
                 out[f[0]] = {"status": "ok", "fns": int(w[1]), "ok": int(w[2]), "checked": w[3] == "checked=true",
-                             "fail": [x.split(":", 1)[1] for x in fail.split(",") if x]}
+                             "fail": [x.split(":", 1)[1] for x in fail.split(",") if x],
+                             "wf": int(kv.get("wf", 0)), "wffail": [x.split(":", 1)[1] for x in kv.get("wffail", "").split(",") if x],
+                             "enc": int(kv.get("enc", 0)), "fwdnested": int(kv.get("fwdnested", 0))}
             elif len(f) >= 2:
                 out[f[0]] = {"status": f[1]}
         return out
